@@ -152,6 +152,7 @@ def execute(h):
         for how, fn in (('number_and_unit', lambda: Quantity(3, u)),
                         ('string', lambda: Quantity(f"3 {sym}")),
                         ('own_class_string', lambda: cls(f"3 {sym}")),
+                        ('string_spaced', lambda: Quantity(f"  3  {sym} ")),
                         ('own_class_number', lambda: cls(3, u))):
             try:
                 q = fn()
